@@ -511,6 +511,10 @@ def parse_args(sig, args):
             return s1, inst
         elif sig == List[Term]:
             return parse_term_list(args)
+        elif sig == Tuple[str, Term, Term]:
+            s1, s2 = args.split(",", 1)
+            t1, t2 = parse_term_list(s2)
+            return s1, t1, t2
         else:
             raise TypeError
     except exceptions.UnexpectedToken as e:
